@@ -137,6 +137,25 @@ func sharedAcrossServices(idx int) *ir.Request {
 }
 
 // sameServiceNameTwice: do two generated files declare a service with the same short name?
+// shortServiceDocNames: is every emitted OpenAPI document named `<short service name>.openapi.<ext>` for a
+// service of the request?
+func shortServiceDocNames(req *ir.Request, r *plug.Result) bool {
+	names := map[string]bool{}
+	for _, f := range req.Files {
+		for _, s := range f.Services {
+			names[s.Name] = true
+		}
+	}
+	for n := range r.Files {
+		base := n[strings.LastIndex(n, "/")+1:]
+		i := strings.Index(base, ".openapi.")
+		if i < 0 || !names[base[:i]] {
+			return false
+		}
+	}
+	return true
+}
+
 func sameServiceNameTwice(req *ir.Request) bool {
 	seen := map[string]string{}
 	for _, g := range req.Generate {
@@ -406,7 +425,9 @@ func C15(c *Ctx) error {
 			// the OpenAPI plugin names a document after the service's SHORT name: two generated files
 			// that both declare a service of that name write the same output file
 			if j.plugin == plug.OpenAPI && (key == "generated_alone" || key == "file_to_generate_permuted") && sameServiceNameTwice(j.b.req) {
-				cls, predicted = key+":openapiv3:service_name_in_two_files", true
+				// … accepted only while the documents ARE named after the short service name (the recorded behaviour,
+				// OaEmit's naming): any other naming scheme that depends on the co-generated files is a new violation
+				cls, predicted = key+":openapiv3:service_name_in_two_files", shortServiceDocNames(j.b.req, j.ref) && shortServiceDocNames(j.b.req, j.alt)
 			}
 			res.Divergence(cls, fmt.Sprintf("%s: output for %s differs under variation %s", j.plugin, diff, j.variant), predicted, replay)
 		} else {
